@@ -259,6 +259,38 @@ def replay_network(cases):
     return len(cases), viol, nontriv, samples
 
 
+def replay_timeformat(cases):
+    """TimeFormat.tla: printed text and fields read back, per format and instant, as the specification assigns them"""
+    from tracklib.core.obs_time import ObsTime
+    viol, nontriv, samples = [], set(), []
+    save = (ObsTime.getPrintFormat(), ObsTime.getReadFormat())
+    try:
+        for ci, c in enumerate(cases):
+            f = "".join(c["fmt"])
+            for k in c["cases"]:
+                t, want_txt, back = k["t"], "".join(k["txt"]), k["back"]
+                try:
+                    ObsTime.setPrintFormat(f)
+                    ObsTime.setReadFormat(f)
+                    got_txt = str(ObsTime(t["y"], t["mo"], t["d"], t["h"], t["mi"], t["s"], t["ms"]))
+                    if got_txt != want_txt:
+                        viol.append(("timeformat/print", "format %r: %s printed as %r, specification %r" % (f, t, got_txt, want_txt), {"fmt": f, "t": t}))
+                        continue
+                    r = ObsTime.readTimestamp(got_txt)
+                    got = {"y": r.year, "mo": r.month, "d": r.day, "h": r.hour, "mi": r.min, "s": r.sec, "ms": r.ms}
+                    if got != back:
+                        viol.append(("timeformat/read", "format %r: %r read back as %s, specification %s" % (f, got_txt, got, back), {"fmt": f, "t": t}))
+                except (Exception, SystemExit) as ex:
+                    viol.append(("timeformat/raised", "format %r instant %s raised %r" % (f, t, ex), {"fmt": f, "t": t}))
+            if "4Y" not in f or "3z" in f or not f.startswith("2D"):
+                nontriv.add(f)
+            if ci == 0:
+                samples.append({"fmt": f, "first_case": {"t": c["cases"][0]["t"], "txt": "".join(c["cases"][0]["txt"]), "back": c["cases"][0]["back"]}})
+    finally:
+        ObsTime.setPrintFormat(save[0]); ObsTime.setReadFormat(save[1])
+    return len(cases), viol, nontriv, samples
+
+
 def mc_cfg(mode, depth, emit, legacy=False, invs=()):
     return ("SPECIFICATION Spec\nCONSTANTS\n  Mode = \"%s\"\n  NObs = 3\n  Depth = %d\n  Emit = %s\n  Legacy = %s\n" %
             (mode, depth, "TRUE" if emit else "FALSE", "TRUE" if legacy else "FALSE")
@@ -300,6 +332,14 @@ def run(ctx):
     n2 = ctx.pmap_emitted(p2, replay_history, chunk=150)
     p3, o3 = ctx.tlc_emit_file("IOLayout", ctx.write_cfg("IO_ne.cfg", mc_cfg("network", 0, True, invs=("NetworkRoundTrip",))), label="emit networks")
     n3 = ctx.pmap_emitted(p3, replay_network, chunk=600)
+    # the format-code grammar behind the time column (TimeFormat.tla)
+    tfc = "SPECIFICATION Spec\nCONSTANTS\n  Mode = \"mc\"\n  Emit = %s\nINVARIANT RoundTrip\nINVARIANT FixedWidth\nCHECK_DEADLOCK FALSE\n"
+    ctx.tlc_mc("TimeFormat", ctx.write_cfg("TF.cfg", tfc % "FALSE"), label="time format grammar: print / read round trip")
+    p4, o4 = ctx.tlc_emit_file("TimeFormat", ctx.write_cfg("TFe.cfg", tfc % "TRUE"), label="emit time formats")
+    n4 = ctx.pmap_emitted(p4, replay_timeformat, chunk=30)
+    if n4 != o4.distinct:
+        raise core.Machinery("emitted time formats %d != distinct states %d" % (n4, o4.distinct))
+    ctx.extra["time_formats_replayed"] = n4
     if n1 != 1368:
         raise core.Machinery("expected 1368 emitted layouts, parsed %d" % n1)
     if n3 != o3.distinct:
